@@ -366,6 +366,11 @@ def run(ctx):
     from .C11 import timer_removed_with_entry
     n_partial += timer_removed_with_entry(ctx, 'C16.partial', 'client')
     n_partial += timer_removed_with_entry(ctx, 'C16.partial', 'server')
+    # "keeps serving well-formed traffic": whatever the peer sent (duplicates, cancels for unknown ids, floods of either), the server end never goes idle without
+    # the transport read registered — a yield / early return that forgets the waker would leave the rest of the peer's traffic unread for good.  (Back-pressure
+    # from a response sink that is not ready is a different matter and not judged here.)
+    from .coverage import coverage
+    coverage(ctx, 'C16.serve', ('R',), blocked_too=False)
     R.count('partial_operation_sites', n_partial)
     if n_partial < 8:
         raise CannotDecide('only %d partial-operation sites found (floor 8)' % n_partial)
